@@ -234,8 +234,9 @@ def elaborate_src(scratch, src, clsname, keep=False):
   return r
 
 def outcome_key(r):
-  """order-insensitive summary of an elaboration result"""
-  if r[0] == 'err': return ('err', r[1])
+  """order-insensitive summary of an elaboration result: rejected (whatever the exception class: a design with several
+  defects may report any of them first), or accepted with its set of (writer, net) pairs"""
+  if r[0] == 'err': return ('err',)
   return ('ok', tuple(sorted((w, tuple(m)) for w, m in r[1])))
 
 def run_worker(cases, hashseed, timeout=600):
